@@ -254,7 +254,15 @@ func (view *View) group(ctx context.Context, scope *ReferenceScope, items []pars
 	for _, item := range items {
 		switch item.(type) {
 		case parser.FieldReference, parser.ColumnNumber:
-			idx, _ := view.Header.SearchIndex(item)
+			idx, err := view.Header.SearchIndex(item)
+			if err != nil {
+				// Without records the grouping keys have not been evaluated, so a reference to
+				// a field that cannot be resolved is found here.
+				if err == errFieldAmbiguous {
+					return NewFieldAmbiguousError(item)
+				}
+				return NewFieldNotExistError(item)
+			}
 			view.Header[idx].IsGroupKey = true
 		}
 	}
